@@ -33,8 +33,10 @@ def check(ctx):
         cfg = f"{pkg} axis={axis}"
         # ---------------- plain FPS --------------------------------------
         cls = P.cls(f"skmatter.{pkg}_selection.FPS")
-        for meth in ("_update_hausdorff",):
-            I = ctx.interp()
+        # one selection step (the shared bookkeeping of the base class is C01's subject and is stubbed out)
+        base_noop = {"GreedySelector._update_post_selection": (lambda i_, c_, a_, k_, s_, n_: vconst(None))}
+        for meth in ("_update_post_selection",):
+            I = ctx.interp(stubs=base_noop)
             st = State()
             X = arr("X", "N", "M")
             y = arr("y", "N", "P")
@@ -55,7 +57,7 @@ def check(ctx):
         _score_checks(ctx, N, cls, pkg, axis, S, "FPS")
         # ---------------- PCov-FPS ------------------------------------------
         cls = P.cls(f"skmatter.{pkg}_selection.PCovFPS")
-        I = ctx.interp()
+        I = ctx.interp(stubs=base_noop)
         st = State()
         X = arr("X", "N", "M")
         y = arr("y", "N", "P")
@@ -63,7 +65,7 @@ def check(ctx):
         norms, H, Hs, Mx = arr("norms", S, inp=False), arr("H", S, inp=False), arr("Hsel", S, inp=False), arr("Mt", S, S, inp=False)
         o = ctx.bare_object(I, st, cls, {"_axis": axis, "norms_": norms, "hausdorff_": H, "hausdorff_at_select_": Hs, "pcovr_distance_": Mx})
         m = P.method(cls, "_update_hausdorff")
-        ctx.call_method(I, st, o, "_update_hausdorff", X, y, l)
+        ctx.call_method(I, st, o, "_update_post_selection", X, y, l)
         I2, st2 = ctx.interp(), State()
         ref = ctx.call_func(I2, st2, "ref.selection_ref.pcov_fps_update", Mx, norms, H, Hs, l, axis)
         site = ctx.site(m)
@@ -192,7 +194,7 @@ def _init_checks(ctx, N, cls, pkg, axis, S, name, pcov):
             if sel is not None:
                 from ..apitable import dim_term
 
-                ok = any(x.op == "rng" and x.args[1] == "randint" and x.args[2] and x.args[2][0] == dim_term(Dim.of(S)) for x in tq.walk_all(sel.term))
+                ok = any(tq.randint_range(x) == (const(0), dim_term(Dim.of(S))) for x in tq.walk_all(sel.term) if x.op == "rng")
                 ctx.ob("R-INIT", f"{name}.{pkg}.randint bound is the size of the selection axis", ok, f"selected_idx_ = {sel.term!r}", site, cfg)
 
 
